@@ -753,5 +753,5 @@ func sinitACM(txtAPI hwapi.LowLevelHardwareInterfaces, regs tools.TXTRegisterSpa
 	if acm == nil {
 		return nil, fmt.Errorf("ACM is nil")
 	}
-	return tools.ParseACM(r)
+	return acm, nil
 }
